@@ -22,7 +22,7 @@ EXPLANATION = (
     "or InvalidInitialConditions is raised. _update_parset: after the call every addressed population factor / all-population factor equals the requested value and nothing else changed. NOT decided (stated in MANIFEST): 'no worse than the start', hard targets kept, "
     "caller state restored at every crash point -- these quantify over the random path of sciris' ASD and over exceptions injected at the k-th simulation, i.e. enumerations of concrete runs, not solver queries."
 )
-GROUP_TIMEOUT = {"quick": 600, "thorough": 1500}
+GROUP_TIMEOUT = {"quick": 1800, "thorough": 3000}
 
 
 def _sym_model(env, T=4):
